@@ -144,7 +144,7 @@ def judge_measurements(case):
 def judge_process(case):
     out = {}
     for basis in ("weight", "molar"):
-        s = traces.Setup(dict(case, basis=basis, budget=BUDGET))
+        s = traces.Setup(dict(case, basis=basis, budget=BUDGET // 4))
         st, pm = s.run()
         out[basis] = (st, pm, s)
     (sa, pa, s1), (sb, pb, _) = out["weight"], out["molar"]
@@ -236,9 +236,9 @@ def main(tier, seed):
     non.update(basis=["both"], precision=[PREC], steps=[1, 4] if q else [1, 3, 8], area=[0.05, 1.0], amount=[50.0] if q else [0.047, 50.0])
     if not q:
         ideal.update(mixture=list(U.ALL_MIXTURES), mode=["vac", ("T", -60.0), ("T", -20.0), ("p", 0.5), ("p", 5.0)],
-                     x0=core.lat([0.05, 0.1, 0.3, 0.5, 0.7, 0.9], seed), T=core.lat([293.15, 313.15, 333.15, 353.15, 373.15], seed))
-        non.update(mixture=["H2O_EtOH", "MeOH_DMC", "S1", "S2", "S4"], curves=list(spaces.CURVE_CONFIGS.values()),
-                   x0=core.lat([0.06, 0.1, 0.3, 0.45, 0.7, 0.88], seed))
+                     x0=core.lat([0.05, 0.3, 0.6, 0.9], seed), T=core.lat([313.15, 333.15, 353.15], seed), prog=["none", "poly"], steps=[1, 6])
+        non.update(mixture=["H2O_EtOH", "MeOH_DMC", "S2", "S4"], curves=list(spaces.CURVE_CONFIGS.values()),
+                   x0=core.lat([0.1, 0.3, 0.45], seed), steps=[1, 6], prog=["none", "poly"])
     for name, alph, cons in (("ideal_process_twins", ideal, psp.constraint), ("nonideal_process_twins", non, nsp.constraint)):
         sp = core.Space(name, alph, cons)
         spaces.prewarm(sp)
